@@ -1,5 +1,190 @@
-import Ucfg.Model.Tree
+import Ucfg.Lemmas.Forest
+/-!
+  C15 — Path, Parent, FlattenedKeys and diff describe the actual structure.
+
+  Stated on the identity-level model (Model/Forest.lean), where every node stores its context like the Go values do.
+  * `storedPath_is_position`: along nodes that store their container and name, `context.path` is the actual position;
+  * the primitives that place or move list elements keep "every element stores its index and its container":
+    `append_assigns_indices` (fields.append, used by every list merge policy), `delAt_renumbers` (fields.delAt, the
+    repaired defect D19), `setNamed_stores_context` / `setIdx_stores_context` (SetValue);
+  * `copy_has_context`: a deep copy carries the context it was made for;
+  * CompareConfigs partitions the two key sets (`compare_keep/add/remove`, `compare_exhaustive`, `compare_disjoint`)
+    and reports no change for equal key sets (`compare_equal_sets_unchanged`).
+  What is *not* proved: that every public operation is a composition of these primitives (that is the reading of
+  merge.go/path.go the model's header records, checked on histories through the fingerprint hook), and the claim for a
+  node attached at two positions (known finding D20).
+-/
 namespace Ucfg.C15
-/-- placeholder while the forest model is being written -/
-theorem stub : True := trivial
+open Ucfg.Forest
+
+/-- Path(): for a root without a name and a chain of nodes each storing its container and a non-empty name, the stored
+path of the last node is the list of names leading to it -/
+theorem storedPath_is_position (h : Heap) (root : Id) (links : List (String × Id)) (rb : Body)
+    (hroot : h[root]? = some ⟨none, "", rb⟩) (hch : Chain h root links) (fuel : Nat) (hf : links.length < fuel) :
+    storedPath fuel h ((links.getLast?.map (·.2)).getD root) = links.map (·.1) := by
+  have hup : ∀ m, links.length ≤ m → storedPath (m - links.length + 1) h root = [] := by
+    intro m _
+    simp [storedPath, hroot]
+  have := storedPath_chain h links 1 root [] hup hch (fuel - 1) (by omega)
+  have e : fuel - 1 + 1 = fuel := by omega
+  rw [e] at this
+  simpa using this
+
+/-- non-vacuity: a two-level tree -/
+example : storedPath 5 [⟨none, "", .sub [("a", 1)] []⟩, ⟨some 0, "a", .sub [] [2]⟩, ⟨some 1, "0", .prim "int" "7"⟩] 2 = ["a", "0"] := by
+  decide
+
+/-- fields.append (append / prepend / replace / "longer list" merges): the copies are stored behind the existing
+elements, each with its own index as name and the list's node as parent -/
+theorem append_assigns_indices (fuel : Nat) (src : List Id) (h h' : Heap) (to : Id) (p : Option Id) (f : String)
+    (d : List (String × Id)) (a : List Id)
+    (hg : getSub h to = some (p, f, d, a)) (he : appendCpy fuel h to src = some h') :
+    ∃ new, getSub h' to = some (p, f, d, a ++ new) ∧ new.length = src.length ∧ IndexedFrom h' to a.length new := by
+  obtain ⟨new, h1, h2, h3, _⟩ := appendCpy_spec fuel src h h' to p f d a hg he
+  exact ⟨new, h1, h2, h3⟩
+
+/-- fields.delAt: after removing element `i`, every remaining element stores the index it now has (and still the list's
+node as parent) -/
+theorem delAt_renumbers (h : Heap) (to : Id) (i : Nat) (p : Option Id) (f : String) (d : List (String × Id)) (a : List Id)
+    (hg : getSub h to = some (p, f, d, a)) (hi : i < a.length) (hnd : a.Nodup) (hlt : ∀ c ∈ a, c < h.length)
+    (hto : to ∉ a) (hidx : IndexedFrom h to 0 a) :
+    getSub (delAt h to i) to = some (p, f, d, a.eraseIdx i) ∧ IndexedFrom (delAt h to i) to 0 (a.eraseIdx i) := by
+  have hnode := getSub_node hg
+  have hdel : delAt h to i = renumber (setBody h to (.sub d (a.eraseIdx i))) ((a.eraseIdx i).drop i) i := by
+    unfold delAt; rw [hg]; simp [hi]
+  have hnd' : (a.eraseIdx i).Nodup := List.Nodup.eraseIdx i hnd
+  have hsubmem : ∀ c, c ∈ (a.eraseIdx i).drop i → c ∈ a := fun c hc =>
+    List.mem_of_mem_eraseIdx (List.mem_of_mem_drop hc)
+  have htod : to ∉ (a.eraseIdx i).drop i := fun hc => hto (hsubmem _ hc)
+  constructor
+  · rw [hdel]
+    apply getSub_of_node
+    rw [renumber_other _ _ _ _ htod]
+    exact setBody_same _ _ _ _ hnode
+  · intro j c hj
+    have hc_a : c ∈ a := List.mem_of_mem_eraseIdx (List.mem_of_getElem? hj)
+    have hc_to : c ≠ to := fun e => hto (e ▸ hc_a)
+    have hjlt : j < (a.eraseIdx i).length := by
+      rcases Nat.lt_or_ge j (a.eraseIdx i).length with hl | hl
+      · exact hl
+      · rw [List.getElem?_eq_none hl] at hj; cases hj
+    rw [hdel]
+    by_cases hji : j < i
+    · -- in front of the removed element: untouched
+      have hnotin : c ∉ (a.eraseIdx i).drop i := by
+        intro hc
+        obtain ⟨k, hk⟩ := List.getElem?_of_mem hc
+        rw [List.getElem?_drop] at hk
+        have := (List.getElem?_inj hjlt hnd').mp (hj.trans hk.symm)
+        omega
+      rw [renumber_other _ _ _ _ hnotin, setBody_other _ _ _ _ hc_to]
+      have hja : a[j]? = some c := by
+        rw [List.getElem?_eraseIdx] at hj
+        simpa [hji] using hj
+      simpa using hidx j c hja
+    · -- behind it: renumbered
+      have hji' : i ≤ j := Nat.le_of_not_lt hji
+      have hk : ((a.eraseIdx i).drop i)[j - i]? = some c := by
+        rw [List.getElem?_drop]
+        have : i + (j - i) = j := by omega
+        rw [this]; exact hj
+      have hlt' : ∀ x ∈ (a.eraseIdx i).drop i, x < (setBody h to (.sub d (a.eraseIdx i))).length := by
+        intro x hx; rw [setBody_length]; exact hlt x (hsubmem x hx)
+      have hndd : ((a.eraseIdx i).drop i).Nodup := List.Nodup.sublist (List.drop_sublist _ _) hnd'
+      obtain ⟨nd, hnd0, hres⟩ := renumber_spec _ (setBody h to (.sub d (a.eraseIdx i))) i hndd hlt' (j - i) c hk
+      rw [setBody_other _ _ _ _ hc_to] at hnd0
+      have hja : a[j + 1]? = some c := by
+        rw [List.getElem?_eraseIdx] at hj
+        simpa [hji] using hj
+      obtain ⟨b, hb⟩ := hidx (j + 1) c hja
+      rw [hb] at hnd0
+      simp only [Option.some.injEq] at hnd0
+      subst hnd0
+      refine ⟨b, ?_⟩
+      rw [hres]
+      have : i + (j - i) = j := by omega
+      simp [this]
+
+/-- non-vacuity and the defect itself: removing the first of three elements -/
+example :
+    let h : Heap := [⟨none, "", .sub [] [1, 2, 3]⟩, ⟨some 0, "0", .prim "int" "1"⟩, ⟨some 0, "1", .prim "int" "2"⟩, ⟨some 0, "2", .prim "int" "3"⟩]
+    (delAt h 0 0)[2]? = some ⟨some 0, "0", .prim "int" "2"⟩ ∧ (delAt h 0 0)[3]? = some ⟨some 0, "1", .prim "int" "3"⟩ := by
+  decide
+
+/-- namedField.SetValue: the stored value carries the node it is stored in and the name it is stored under -/
+theorem setNamed_stores_context (h : Heap) (to : Id) (name kind val : String) (p : Option Id) (f : String)
+    (d : List (String × Id)) (a : List Id) (hg : getSub h to = some (p, f, d, a)) :
+    (setNamedPrim h to name kind val)[h.length]? = some ⟨some to, name, .prim kind val⟩ ∧
+    getSub (setNamedPrim h to name kind val) to = some (p, f, dictSet d name h.length, a) := by
+  have hto := getSub_lt hg
+  have hne : h.length ≠ to := Nat.ne_of_gt hto
+  unfold setNamedPrim
+  rw [hg]
+  simp only
+  constructor
+  · rw [setBody_other _ _ _ _ hne]; simp
+  · apply getSub_of_node
+    have : (h ++ [(⟨some to, name, .prim kind val⟩ : Node)])[to]? = some ⟨p, f, .sub d a⟩ := by
+      rw [List.getElem?_append_left hto]; exact getSub_node hg
+    exact setBody_same _ _ _ _ this
+
+/-- a deep copy carries the context it was made for -/
+theorem copy_has_context (n : Nat) (h h' : Heap) (id id' : Id) (p : Option Id) (f : String)
+    (he : cpy n h id p f = some (h', id')) : ∃ b, h'[id']? = some ⟨p, f, b⟩ := by
+  obtain ⟨_, _, _, _, hb⟩ := cpy_good n 0 h id p f h' id' (Nat.zero_le _) he
+  exact hb
+
+/-! ### CompareConfigs -/
+
+theorem mem_dedup (l : List String) (k : String) : k ∈ dedup l ↔ k ∈ l := by
+  induction l with
+  | nil => simp [dedup]
+  | cons x r ih =>
+    simp only [dedup]
+    by_cases hx : r.contains x = true
+    · rw [if_pos hx, ih]
+      have hxr : x ∈ r := by simpa using hx
+      constructor
+      · intro h; exact List.mem_cons_of_mem _ h
+      · intro h
+        rcases List.mem_cons.mp h with rfl | h
+        · exact hxr
+        · exact h
+    · rw [if_neg hx]
+      simp [ih]
+
+theorem compare_keep (old new : List String) (k : String) : k ∈ (compareKeys old new).keep ↔ k ∈ old ∧ k ∈ new := by
+  simp [compareKeys, mem_dedup]
+
+theorem compare_add (old new : List String) (k : String) : k ∈ (compareKeys old new).add ↔ k ∈ new ∧ k ∉ old := by
+  simp [compareKeys, mem_dedup]
+
+theorem compare_remove (old new : List String) (k : String) : k ∈ (compareKeys old new).remove ↔ k ∈ old ∧ k ∉ new := by
+  simp [compareKeys, mem_dedup]
+
+/-- every setting of either config is in one of the three classes -/
+theorem compare_exhaustive (old new : List String) (k : String) (hk : k ∈ old ∨ k ∈ new) :
+    k ∈ (compareKeys old new).keep ∨ k ∈ (compareKeys old new).add ∨ k ∈ (compareKeys old new).remove := by
+  rw [compare_keep, compare_add, compare_remove]
+  by_cases ho : k ∈ old <;> by_cases hn : k ∈ new <;> simp_all
+
+/-- ... and in only one -/
+theorem compare_disjoint (old new : List String) (k : String) :
+    ¬ (k ∈ (compareKeys old new).keep ∧ k ∈ (compareKeys old new).add) ∧
+    ¬ (k ∈ (compareKeys old new).keep ∧ k ∈ (compareKeys old new).remove) ∧
+    ¬ (k ∈ (compareKeys old new).add ∧ k ∈ (compareKeys old new).remove) := by
+  rw [compare_keep, compare_add, compare_remove]
+  refine ⟨?_, ?_, ?_⟩ <;> intro ⟨h1, h2⟩ <;> simp_all
+
+/-- two configs with the same settings: nothing added, nothing removed -/
+theorem compare_equal_sets_unchanged (old new : List String) (h : ∀ k, k ∈ old ↔ k ∈ new) :
+    (compareKeys old new).hasChanged = false := by
+  have ha : (compareKeys old new).add = [] := by
+    apply List.eq_nil_iff_forall_not_mem.mpr
+    intro k hk; rw [compare_add] at hk; exact hk.2 ((h k).mpr hk.1)
+  have hr : (compareKeys old new).remove = [] := by
+    apply List.eq_nil_iff_forall_not_mem.mpr
+    intro k hk; rw [compare_remove] at hk; exact hk.2 ((h k).mp hk.1)
+  simp [Diff.hasChanged, ha, hr]
+
 end Ucfg.C15
